@@ -141,5 +141,10 @@ pub proof fn lemma_mod_shift(h: int, n: int, i: int, c: int)
     vstd::arithmetic::div_mod::lemma_add_mod_noop((h + n) % c, i, c);
 }
 
+pub proof fn verif_canary_must_fail(x: int)
+    requires x > 0,
+    ensures x > 1,
+{
+}
 } // verus!
 fn main() {}
